@@ -184,7 +184,12 @@ func (w *World) structSort(t types.Type) *StructSort {
 }
 
 func (s *StructSort) ctor() string         { return "mk_" + s.Name }
-func (s *StructSort) acc(i int) string     { return s.Name + "_" + mangle(s.Fields[i].Name) }
+func (s *StructSort) acc(i int) string {
+	if s.Fields[i].Name == "_" {
+		return fmt.Sprintf("%s_blank%d", s.Name, i)
+	}
+	return s.Name + "_" + mangle(s.Fields[i].Name)
+}
 func (s *StructSort) fieldIndex(name string) int {
 	for i, f := range s.Fields {
 		if f.Name == name {
